@@ -30,10 +30,10 @@ type uniq2Entry struct {
 }
 
 type uniq2Table struct {
-	conc map[string]*Value // type string + concKey -> canonical cell (per worker)
-	init []uniq2Entry      // made while a package initialiser was running
-	path *Path             // owner of local
-	local []uniq2Entry     // made on the current path (outside initialisers), concrete and symbolic
+	conc  map[string]*Value // type string + concKey -> canonical cell (per worker)
+	init  []uniq2Entry      // made while a package initialiser was running
+	path  *Path             // owner of local
+	local []uniq2Entry      // made on the current path (outside initialisers), concrete and symbolic
 }
 
 var (
